@@ -84,7 +84,8 @@ def build_harness():
         for out, pkg in ((HARNESS_BIN, "."), (EXTRACT_BIN, "./extract")):
             if not os.path.isdir(os.path.join(HARNESS, pkg)):
                 continue
-            rc, log = sh(["go", "build", "-tags", "verif", "-o", out, pkg], cwd=HARNESS, env=GOENV, timeout=600)
+            cover = ["-cover", "-coverpkg=github.com/sealdice/dicescript,verifharness"] if (os.environ.get("VERIF_COVER") and pkg == ".") else []
+            rc, log = sh(["go", "build", "-tags", "verif"] + cover + ["-o", out, pkg], cwd=HARNESS, env=GOENV, timeout=600)
             if rc != 0:
                 raise Broken("harness-build", log[-4000:])
 
@@ -249,6 +250,9 @@ class Child:
 
 def go_child(timeout=120, mem="2GiB", line_timeout=15):
     env = dict(os.environ, GOMEMLIMIT=mem, GOMAXPROCS="4")
+    if os.environ.get("VERIF_COVER"):
+        # statement coverage of /repo under the checks (bin/gocover): the harness was built with -cover
+        env["GOCOVERDIR"] = os.environ["VERIF_COVER"]
     return Child(["/bin/sh", "-c", f"ulimit -v 8000000; exec {HARNESS_BIN}"], env=env, timeout=timeout,
                  line_timeout=line_timeout)
 
